@@ -288,3 +288,61 @@ def fam_take_placement(T=3):
             rest = [slack(T, 'n1', [1, 1, 1][:T], lo=-4, hi=4), slack(T, 'n2', [2, 3, 2][:T] if sense == 'max' else [1, 1, 1], lo=-4, hi=4)]
         out.append(F.make_cfg(ids(), T, rest + [x], dt=dt, placement=pname, element='take_' + kind, element_index=len(rest)))
     return out
+
+
+# ---------------------------------------------------------------- split optimisation (C14)
+def split_steps(T, size):
+    """1-based steps that start a new interval when the horizon is cut into intervals of `size` steps"""
+    return {s for s in range(1 + size, T + 1, size)}
+
+
+def fam_split(thorough=False):
+    """(cfg with split boundaries, interval string); hourly grid, intervals of 2 (and 3) hours, horizons aligned or not"""
+    ids = Ids()
+    out = []
+    Ts = (4, 5) if not thorough else (4, 5, 6)
+    for T, size in itertools.product(Ts, (2, 3) if thorough else (2,)):
+        sp = split_steps(T, size)
+        iv = '%dh' % size
+        pr1 = [1, 5, 2, 6, 3, 4][:T]
+        pr2 = [4, 1, 3, 2, 5, 1][:T]
+        # nothing couples the intervals
+        for pr, ec in itertools.product((pr1, pr2), (0, 1)):
+            a = [F.contract(T, 'n1', -1, 1, pr, ec=ec), slack(T, 'n1', 3, lo=-2, hi=2)]
+            out.append(F.make_cfg(ids(), T, a, split=sp, refines=True, interval=iv, coupling='none'))
+        a = [slack(T, 'n1', pr1, lo=-2, hi=2), F.transport(T, 'n1', 'n2', 0, 1, eff=(1, 2), cost=1), slack(T, 'n2', pr2, lo=-2, hi=2)]
+        out.append(F.make_cfg(ids(), T, a, split=sp, refines=True, interval=iv, coupling='none'))
+        # asset window that leaves an interval empty
+        a = [F.contract(T, 'n1', -1, 1, pr1, ec=1, ws=1, we=3), slack(T, 'n1', 3, lo=-2, hi=2)]
+        out.append(F.make_cfg(ids(), T, a, split=sp, refines=True, interval=iv, coupling='none'))
+        # storages with start level = end level
+        for st, pr in itertools.product([dict(size=2, cin=1, cout=1), dict(size=2, cin=2, cout=1, start=1, end=1, eff=(1, 2)),
+                                         dict(size=2, cin=1, cout=1, inflow=1, start=1, end=1, cout_=0)], (pr1, pr2)):
+            st = {k: v for k, v in st.items() if not k.endswith('_')}
+            a = [slack(T, 'n1', pr, lo=-3, hi=3), F.storage(T, 'n1', **st)]
+            out.append(F.make_cfg(ids(), T, a, split=sp, refines=True, interval=iv, coupling='storage_start_eq_end'))
+        # storage window starting inside the second interval
+        a = [slack(T, 'n1', pr1, lo=-3, hi=3), F.storage(T, 'n1', size=2, cin=1, cout=1, ws=2, we=T + 1)]
+        out.append(F.make_cfg(ids(), T, a, split=sp, refines=True, interval=iv, coupling='storage_start_eq_end'))
+        # storages with start level # end level, and take periods across intervals: conformance of the split model only
+        a = [slack(T, 'n1', pr1, lo=-3, hi=3), F.storage(T, 'n1', size=2, cin=1, cout=1, start=0, end=1)]
+        out.append(F.make_cfg(ids(), T, a, split=sp, refines=False, interval=iv, coupling='storage_start_ne_end'))
+        for sense, (s, e) in itertools.product(('min', 'max'), [(0, T), (1, T + 2), (-1, 3)]):
+            a = [F.contract(T, 'n1', 0, 2, pr2 if sense == 'min' else [1] * T, takes=[dict(s=s, e=e, vol=3, sense=sense)], force_contract=True),
+                 slack(T, 'n1', [2, 3, 2, 3, 2, 3][:T], lo=-4, hi=0)]
+            out.append(F.make_cfg(ids(), T, a, split=sp, refines=False, interval=iv, coupling='takes'))
+    return out
+
+
+def fam_split_discount():
+    """discounting across intervals: one year per step, wacc = 1, intervals of two years"""
+    ids = Ids()
+    out = []
+    T = 4
+    disc, DEN = F.disc_pow2(T)
+    for pr in ([1, 5, 2, 6], [4, 1, 3, 2]):
+        a = [F.contract(T, 'n1', -1, 1, pr, ec=1, disc=disc), F.contract(T, 'n1', -2, 2, 3, disc=disc)]
+        out.append(F.make_cfg(ids(), T, a, DEN=DEN, wacc=1.0, cal='y', split={3}, refines=True, interval='730D', coupling='none'))
+        a = [F.contract(T, 'n1', -2, 2, pr, disc=disc), F.storage(T, 'n1', size=2, cin=1, cout=1, coststore=1, disc=disc)]
+        out.append(F.make_cfg(ids(), T, a, DEN=DEN, wacc=1.0, cal='y', split={3}, refines=True, interval='730D', coupling='storage_start_eq_end'))
+    return out
